@@ -491,6 +491,15 @@ func init() {
 			for k := 0; k < c.Pick(300, 5000); k++ {
 				ls = append(ls, "int "+strconv.FormatUint(uint64(randNum(c)), 10))
 			}
+			// integer length bytes beyond four, for each instruction that carries an integer
+			for _, head := range []string{"000303666f6f", "000103666f6f", "0002"} {
+				for l := 5; l <= 9; l++ {
+					body := fmt.Sprintf("%02x", l) + strings.Repeat("00", l-1) + "2a"
+					for _, tail := range []string{"", "01", "010007"} {
+						ls = append(ls, "parse "+head+body+tail, "one "+head+body+tail)
+					}
+				}
+			}
 			// symbol lengths 1..255 exhaustively
 			for l := 1; l <= 255; l++ {
 				ls = append(ls, "enc "+GInstr{Op: "MOVE", A: strings.Repeat("a", l)}.String())
@@ -619,6 +628,12 @@ func init() {
 				}
 				if err != nil {
 					return "err"
+				}
+				// the bytes the step consumed must be exactly one valid instruction of the format
+				if used := len(b) - len(rest); used >= 0 && used <= len(b) {
+					if valid, n, _ := specValid(b[:used]); !valid || n != 1 {
+						c.Fail("C15", "silent-accept", fmt.Sprintf("decode step on %s reports success (%s) but the %d bytes it consumed are not one valid instruction", f[1], s, used))
+					}
 				}
 				return "ok " + s + " " + hx(rest)
 			case "int":
